@@ -2,6 +2,7 @@ package vh
 
 import (
 	"bytes"
+	"database/sql"
 	"fmt"
 	"math"
 	"reflect"
@@ -157,13 +158,17 @@ func setReflect(t *TSpec, rv reflect.Value, v Val) {
 		}
 		rv.Set(reflect.ValueOf(tm).Convert(rv.Type()))
 	case KNullInt:
-		if v.Nil {
+		if v.Nil && v.P != nil {
+			rv.Set(reflect.ValueOf(null.Int{NullInt64: sql.NullInt64{Int64: v.P.I}})) // invalid, with a left-over payload
+		} else if v.Nil {
 			rv.SetZero()
 		} else {
 			rv.Set(reflect.ValueOf(null.IntFrom(v.P.I)))
 		}
 	case KNullBool:
-		if v.Nil {
+		if v.Nil && v.P != nil {
+			rv.Set(reflect.ValueOf(null.Bool{NullBool: sql.NullBool{Bool: v.P.B}})) // invalid, with a left-over payload
+		} else if v.Nil {
 			rv.SetZero()
 		} else {
 			rv.Set(reflect.ValueOf(null.BoolFrom(v.P.B)))
@@ -176,7 +181,9 @@ func setReflect(t *TSpec, rv reflect.Value, v Val) {
 			*(*uint64)(unsafe.Pointer(rv.Field(0).Field(0).UnsafeAddr())) = v.P.F
 		}
 	case KNullString:
-		if v.Nil {
+		if v.Nil && v.P != nil {
+			rv.Set(reflect.ValueOf(null.String{NullString: sql.NullString{String: string(v.P.S)}})) // invalid, with a left-over payload
+		} else if v.Nil {
 			rv.SetZero()
 		} else {
 			rv.Set(reflect.ValueOf(null.StringFrom(string(v.P.S))))
